@@ -26,6 +26,19 @@ Theorem C19_extent_branches : forall t e i, (i < rank e)%nat ->
 Proof. exact extent_general. Qed.
 Print Assumptions C19_extent_branches.
 
+(* memory safety of the dynamic-extents array: for every pattern, every position i with a dynamic extent is
+   given a slot _dynamic_index(i) INSIDE array<IndexType, rank_dynamic()> (the stores of all constructors and the
+   load of extent(i) go there), and two such positions never share a slot *)
+Theorem C19_dynamic_slot_in_bounds : forall p i, (i < length p)%nat -> static_extent p i = None ->
+  (dynamic_index p i < rank_dynamic p)%nat.
+Proof. exact dynamic_slot_in_bounds. Qed.
+Print Assumptions C19_dynamic_slot_in_bounds.
+
+Theorem C19_dynamic_slot_injective : forall p i j, (i < j)%nat -> (j < length p)%nat ->
+  static_extent p i = None -> (dynamic_index p i < dynamic_index p j)%nat.
+Proof. exact dynamic_slot_injective. Qed.
+Print Assumptions C19_dynamic_slot_injective.
+
 (* all-extents constructors (N == rank): for EVERY pattern, extent(i) afterwards returns the value
    passed for dimension i (converted to the index type); static dimensions keep their static extent *)
 Theorem C19_extents_ctor_all : forall t p vals, wf_ity t -> length vals = length p ->
